@@ -94,6 +94,8 @@ def Spec.commit (cfg : Cfg M K R) (wr : WriteReq M K) (t : SState M R) (id : Str
 /-- `Collection.Update` on the map. -/
 def Spec.update (cfg : Cfg M K R) (t : SState M R) (id : String) (msg : M) (wr : WriteReq M K) :
     COut M × SState M R :=
+  -- an id is absent when the caller gave none, or when the id interceptor maps it to the empty key
+  let absent := idAbsent cfg id
   let id := icptId cfg id
   let u := fieldUpdater cfg wr
   match cfg.ops.validate u msg with
@@ -101,7 +103,7 @@ def Spec.update (cfg : Cfg M K R) (t : SState M R) (id : String) (msg : M) (wr :
   | none =>
     -- resolve the id (generation reads the rng; the id callback hears about a generated id)
     let resolved : Except Code (String × List String) × SState M R :=
-      if id = "" && wr.genEmptyID then
+      if absent && wr.genEmptyID then
         match genID cfg (fun k => (t.m k).isSome) t.rng with
         | (none, rng') => (.error .aborted, { t with rng := rng' })
         | (some id', rng') => (.ok (id', if wr.idCb then [id'] else []), { t with rng := rng' })
